@@ -22,6 +22,9 @@ THEOREMS = [
     "MySensors.C19.decomposition_exists_unique", "MySensors.C19.tcp_chunking",
     "MySensors.C19.behaviour_independent_of_segmentation", "MySensors.C19.inline_is_model_run",
     "MySensors.C19.inline_output_is_model_step",
+    "MySensors.C19.reconnect_is_concatenation", "MySensors.C19.events_any_two",
+    "MySensors.C19.reconnect_drop_policy", "MySensors.C19.events_deliver_complete_lines",
+    "MySensors.C19.lost_and_made_deliver_nothing", "MySensors.C19.policies_agree_without_tail",
     "MySensors.C19.flavours_counterexample", "MySensors.C19.flavours_counterexample_outputs",
     "MySensors.C19.flavours_counterexample_wakeup",
     "MySensors.C19.flavours_partial_state", "MySensors.C19.flavours_partial_output",
@@ -32,6 +35,9 @@ ASSUMPTIONS = [
     "bytes.decode('utf-8', 'replace') is a pure function of the complete packet (the theorems hold for "
     "an arbitrary per-packet decoder; the correspondence applies CPython's decoder to the model's raw packets)",
     "the transport contract: data_received is called with the chunks in stream order, on one thread",
+    "connection events: every connection of a gateway is served by the one protocol object its transport "
+    "holds (lambda: transport.protocol); a protocol class that empties the buffer when the connection is lost "
+    "is accepted as well (theorem reconnect_drop_policy), anything else is reported with the event sequence",
     "threaded flavour: jobs run one at a time on the poll thread (deque.append / popleft atomic under the "
     "GIL); a schedule is an interleaving of 'line arrives' and 'one _poll_queue iteration'; controller "
     "calls (set_child_value, update_fw) are made when the queue is drained — their interleaving with "
@@ -208,6 +214,166 @@ def part_framing(res, rng, driver, tier):
                     res.corr_diffs.append({"name": "framing", "case": case, "model": m[:300], "impl": repr(got)[:300]})
         res.traces_validated += len(model)
     res.sample({"framing": {"stream": streams[7].hex(), "cut": "every position"}, "impl": repr(real_feed("base", [streams[7]]))[:160]})
+
+
+# ------------------------------------------------------------------------------------------
+# part 1b: connection events between the chunks (one protocol object serves every connection)
+# ------------------------------------------------------------------------------------------
+
+class _FakeConn:
+    """what connection_made / connection_lost touch of a pyserial / asyncio transport"""
+
+    def __init__(self):
+        self.serial = self
+        self.closed = False
+
+    def close(self):
+        self.closed = True
+
+    def write(self, data):
+        pass
+
+
+def real_events(cls_name, evs):
+    """evs: list of ("D", bytes) | ("L", with_error) | ("M",).  Returns (lines, buffer, notes)."""
+    proto, lines = make_protocol(cls_name)
+    proto.gateway.cancel_check_conn = None
+    notes = []
+    for ev in evs:
+        before = len(lines)
+        try:
+            if ev[0] == "D":
+                proto.data_received(ev[1])
+                continue
+            if ev[0] == "L":
+                proto.connection_lost(OSError("link down") if ev[1] else None)
+            else:
+                proto.connection_made(_FakeConn())
+        except Exception as exc:  # noqa: BLE001
+            notes.append(f"{ev[0]} raised {type(exc).__name__}: {exc}")
+        if len(lines) != before:
+            notes.append(f"{ev[0]} delivered {lines[before:]!r}")
+    out = [a[0] if n == "logic" and len(a) == 1 else ("?", n, a) for n, a in lines]
+    return out, bytes(proto.buffer), notes
+
+
+def gen_events(rng, stream):
+    """cut the stream into 1..4 connections, each into 1..3 chunks; the link goes down with or without an error"""
+    n = len(stream)
+    ncon = rng.randrange(1, 5)
+    cuts = sorted(rng.randrange(n + 1) for _ in range(ncon - 1))
+    pts = [0] + cuts + [n]
+    evs = []
+    for a, b in zip(pts, pts[1:]):
+        evs.append(("M",))
+        part = stream[a:b]
+        inner = sorted(rng.randrange(len(part) + 1) for _ in range(rng.randrange(0, 3)))
+        ip = [0] + inner + [len(part)]
+        for c, d in zip(ip, ip[1:]):
+            evs.append(("D", part[c:d]))
+        evs.append(("L", rng.random() < 0.5))
+    if rng.random() < 0.5:
+        evs.pop()           # still connected at the end
+    return evs
+
+
+def ev_wire(evs):
+    return " ".join(hexs(e[1]) if e[0] == "D" else e[0] for e in evs)
+
+
+def ev_json(evs):
+    return [[e[0], e[1].hex()] if e[0] == "D" else ([e[0], bool(e[1])] if e[0] == "L" else [e[0]]) for e in evs]
+
+
+def ev_from_json(js):
+    return [("D", bytes.fromhex(e[1])) if e[0] == "D" else (("L", e[1]) if e[0] == "L" else ("M",)) for e in js]
+
+
+def spec_events(evs):
+    """the two policies a protocol class may follow: keep the unterminated tail of a lost connection
+    (the code as it is) or drop it; both deliver complete newline-terminated lines only"""
+    keep = spec_feed(b"".join(e[1] for e in evs if e[0] == "D"))
+    lines, buf = [], b""
+    for e in evs:
+        if e[0] == "D":
+            got, buf = spec_feed(buf + e[1])
+            lines += got
+        elif e[0] == "L":
+            buf = b""
+    return keep, (lines, buf)
+
+
+def judge_events(res, cls, evs, policies):
+    got_lines, got_buf, notes = real_events(cls, evs)
+    keep, drop = spec_events(evs)
+    got = (got_lines, got_buf)
+    verdict = None
+    if notes:
+        verdict = "a connection event " + "; ".join(notes)[:200]
+    elif got != keep and got != drop:
+        verdict = (f"delivered {got!r}; the complete lines are {keep!r} (tail kept across the reconnect) "
+                   f"or {drop!r} (tail dropped)")
+    elif keep != drop:
+        policies.setdefault(cls, set()).add("keep" if got == keep else "drop")
+    if verdict:
+        res.oracle_failures.append({"key": {"kind": "connection-events", "cls": cls},
+                                    "what": f"{cls} protocol, events {ev_json(evs)!r}: {verdict}",
+                                    "replay": {"part": "events", "cls": cls, "events": ev_json(evs)}})
+    return got
+
+
+def part_events(res, rng, driver, tier):
+    classes = ["base", "async", "asynctcp"]
+    policies = {}
+    streams = [b"12;6;1;0;0;3" + b"0;255;3;0;14;Gateway startup complete.\n", b"a\nb", b"\n", b"", b"x\r\ny\n\xc3\xbc"]
+    streams += [gen_stream(rng, rng.randrange(1, 7)) for _ in range(150 if tier == "quick" else 2000)]
+    fixed = [[("M",), ("D", b"12;6;1;0;0;3"), ("L", True), ("M",), ("D", b"0;255;3;0;14;ready\n")],
+             [("M",), ("D", b"1;2;1;0;2;1\n"), ("L", False), ("M",), ("L", True), ("M",), ("D", b"tail"), ("L", False)],
+             [("M",), ("D", b"\xc3"), ("L", False), ("M",), ("D", b"\xbc\n")]]
+    ops, impl, cases = [], [], []
+    k = 0
+    for evs in fixed + [gen_events(rng, s) for s in streams for _ in range(2)]:
+        cls = classes[k % 3]
+        k += 1
+        got = judge_events(res, cls, evs, policies)
+        res.evaluations += 1
+        res.count("events:" + cls)
+        if got[0]:
+            res.distinct.add(digest(("ev", ev_wire(evs))))
+        ops.append("EVENTS " + ev_wire(evs))
+        impl.append(got)
+        cases.append({"part": "events", "cls": cls, "events": ev_json(evs)})
+    for cls, seen in policies.items():
+        res.count(f"events-policy:{cls}:" + "+".join(sorted(seen)))
+        if len(seen) > 1:
+            res.oracle_failures.append({"key": {"kind": "connection-events-mixed", "cls": cls},
+                                        "what": f"{cls} protocol keeps the tail of a lost connection in some histories and drops it in others",
+                                        "replay": {"part": "events", "cls": cls, "events": cases[0]["events"]}})
+    if driver is not None and ops:
+        try:
+            model = driver.run(ops)
+        except Exception as exc:  # noqa: BLE001
+            res.corr_diffs.append({"name": "events-driver", "case": "driver", "model": str(exc), "impl": ""})
+            model = []
+        nd = 0
+        for m, got, case in zip(model, impl, cases):
+            f = dict(x.split("=", 1) for x in m.split(" "))
+
+            def unhex(w):
+                return b"" if w == "e" else bytes.fromhex(w)
+
+            def lines(w):
+                return [] if w == "-" else [unhex(x).decode("utf-8", "replace") for x in w.split("|")]
+            mk = (lines(f["klines"]), unhex(f["kbuf"]))
+            md = (lines(f["dlines"]), unhex(f["dbuf"]))
+            evs = ev_from_json(case["events"])
+            keep, drop = spec_events(evs)
+            # the model's two policies against the independent spec, and the code against the model
+            if (mk, md) != (keep, drop) or got not in (mk, md):
+                nd += 1
+                if nd <= 5:
+                    res.corr_diffs.append({"name": "events", "case": case, "model": m[:300], "impl": repr(got)[:300]})
+        res.traces_validated += len(model)
 
 
 class FakeTime:
@@ -732,6 +898,7 @@ def run(tier, seed, driver):
     res = Result()
     rng = random.Random(seed * 7919 + 19)
     part_framing(res, rng, driver, tier)
+    part_events(res, rng, driver, tier)
     try:
         part_tcp_reader(res, rng, tier)
     except OSError as exc:
@@ -743,7 +910,9 @@ def run(tier, seed, driver):
                 "invalid UTF-8, NUL, unterminated tails, unterminated noise of 101 … 8193 (thorough: 200001) bytes before "
                 "a frame with read sizes 64 … 65536; every single cut (streams <= 40 bytes), every pair of "
                 "cuts (<= 20/28 bytes), byte-by-byte, recv(120), random multi-cuts; three real protocol "
-                "classes; the real TCPTransport.run loop on a socketpair. flavours: generated histories "
+                "classes; the real TCPTransport.run loop on a socketpair. connection events: the same streams cut into "
+                "1..4 connections of 1..3 chunks each on ONE real protocol object per class (connection_lost with and "
+                "without an error, connection_made), against the model's two tail policies. flavours: generated histories "
                 "(versions 1.4-2.2, smart-sleep wake-ups, unknown nodes, OTA) under three pump schedules each "
                 "(random interleaving, everything queued before the pump runs, drained between lines), plus backlogs of "
                 "130 … 520 (thorough: 2300) lines queued before the threaded pump runs, on the "
@@ -768,6 +937,15 @@ def replay(payload):
         print("spec   :", spec_feed(stream))
         print("model  :", common.Driver().run(["FRAME " + " ".join(hexs(c) for c in chunks)]))
         return 0 if got == whole == spec_feed(stream) else 1
+    if part == "events":
+        evs = ev_from_json(r["events"])
+        got = real_events(r.get("cls", "base"), evs)
+        keep, drop = spec_events(evs)
+        print("real   :", got)
+        print("keep   :", keep)
+        print("drop   :", drop)
+        print("model  :", common.Driver().run(["EVENTS " + ev_wire(evs)]))
+        return 0 if not got[2] and (got[0], got[1]) in (keep, drop) else 1
     if part == "flavours":
         toks = toks_from_json(r["tokens"])
         sync = run_sync(r["version"], toks)
